@@ -4,7 +4,7 @@
    bitcoin.Chain.GetTransaction (None = error), [is_dep] / [is_req] = GetDepositRequest /
    GetMovedFundsSweepRequest; every theorem holds for ALL of them, all histories, UTXO sets and
    registered hashes. *)
-From Coq Require Import ZArith NArith List.
+From Coq Require Import ZArith NArith List Bool.
 From KV Require Import Model.C34 Proofs.C34.
 Import ListNotations.
 
@@ -167,3 +167,82 @@ Theorem model_outputs_pass_spec :
     sync_ok lookup is_dep is_req main conf mem (sync lookup is_dep is_req main conf mem) = true.
 Proof. exact Proofs.C34.model_outputs_pass_spec. Qed.
 Print Assumptions model_outputs_pass_spec.
+
+(* ---------- per-call chain faults ---------- *)
+(* A fault script says, for every kind of chain call (GetWallet, transaction history, confirmed
+   UTXOs, mempool UTXOs, GetTransaction, GetDepositRequest, GetMovedFundsSweepRequest), which
+   calls — the k-th of that kind during one run — fail.  [calls] counts the calls a run made,
+   [faulted F c] says that one of the calls it CONSULTED failed.  All theorems hold for every
+   script, every world and every UTXO set. *)
+
+(* the sync check returns at the first failing call: its result is the fault-free one when no
+   consulted call failed, a chain error otherwise *)
+Theorem sync_under_faults :
+  forall lookup is_dep is_req F main conf mem r c,
+    sync_f lookup is_dep is_req F main conf mem = (r, c) ->
+    (faulted F c = false /\ r = sync lookup is_dep is_req main conf mem) \/
+    (faulted F c = true /\ r = SChainErr).
+Proof. exact Proofs.C34.sync_f_cases. Qed.
+Print Assumptions sync_under_faults.
+
+(* pass => every consulted call succeeded: the check never passes over a failed lookup *)
+Theorem sync_pass_means_every_consulted_call_succeeded :
+  forall lookup is_dep is_req F main conf mem c,
+    sync_f lookup is_dep is_req F main conf mem = (SOk, c) ->
+    faulted F c = false /\ sync lookup is_dep is_req main conf mem = SOk.
+Proof. exact Proofs.C34.sync_f_pass. Qed.
+Print Assumptions sync_pass_means_every_consulted_call_succeeded.
+
+(* ... and the wallet is in sync: the main UTXO is among the confirmed UTXOs, or the wallet is
+   fresh and none of its unspent outputs comes from its own sweep transaction *)
+Theorem sync_pass_under_faults_means_in_sync :
+  forall lookup is_dep is_req F main conf mem c,
+    sync_f lookup is_dep is_req F main conf mem = (SOk, c) ->
+    faulted F c = false /\
+    exists cu, conf = Some cu /\
+      match main with
+      | Some m => In m cu
+      | None => exists mu, mem = Some mu /\
+                           forall u, In u (cu ++ mu) -> clean lookup is_dep is_req u
+      end.
+Proof. exact Proofs.C34.sync_f_pass_in_sync. Qed.
+Print Assumptions sync_pass_under_faults_means_in_sync.
+
+Theorem determine_under_faults :
+  forall hash lookup F pkh wallet hashes r c,
+    determine_f hash lookup F pkh wallet hashes = (r, c) ->
+    (faulted F c = false /\ r = determine hash lookup pkh wallet hashes) \/
+    (faulted F c = true /\ r = DChainErr).
+Proof. exact Proofs.C34.determine_f_cases. Qed.
+Print Assumptions determine_under_faults.
+
+(* a script without failures consults nothing that failed *)
+Theorem no_faults_never_faulted : forall c, faulted no_faults c = false.
+Proof. exact Proofs.C34.faulted_no_faults. Qed.
+Print Assumptions no_faults_never_faulted.
+
+(* executable forms under faults, evaluated on the implementation's result and call counts *)
+Theorem sync_ok_f_sound :
+  forall lookup is_dep is_req F c main conf mem r,
+    sync_ok_f lookup is_dep is_req F c main conf mem r = true ->
+    (r = SOk -> faulted F c = false) /\
+    (faulted F c = false -> sync_spec lookup is_dep is_req main conf mem r).
+Proof. exact Proofs.C34.sync_ok_f_sound. Qed.
+Print Assumptions sync_ok_f_sound.
+
+Theorem det_ok_f_sound :
+  forall hash lookup F c pkh wallet hashes r,
+    det_ok_f hash lookup F c pkh wallet hashes r = true ->
+    (r = DChainErr /\ faulted F c = true) \/ det_spec hash lookup pkh wallet hashes r.
+Proof. exact Proofs.C34.det_ok_f_sound. Qed.
+Print Assumptions det_ok_f_sound.
+
+Theorem faulty_model_outputs_pass_spec :
+  forall hash lookup is_dep is_req F pkh wallet hashes main conf mem,
+    (forall h t, lookup h = Some t -> t_in0 t <> None) ->
+    (let (r, c) := determine_f hash lookup F pkh wallet hashes in
+     det_ok_f hash lookup F c pkh wallet hashes r = true) /\
+    (let (r, c) := sync_f lookup is_dep is_req F main conf mem in
+     sync_ok_f lookup is_dep is_req F c main conf mem r = true).
+Proof. exact Proofs.C34.faulty_model_passes. Qed.
+Print Assumptions faulty_model_outputs_pass_spec.
